@@ -540,6 +540,9 @@ func (s *scope) createInstance(descriptor *Descriptor) (any, error) {
 		}
 	}
 
+	// First error reported by setInstance for a multi-output constructor
+	var setErr error
+
 	// Handle result objects (Out structs)
 	if info.IsResultObject {
 		processor := reflection.NewResultObjectProcessor(s.rootProvider.analyzer)
@@ -582,9 +585,15 @@ func (s *scope) createInstance(descriptor *Descriptor) (any, error) {
 				Group: reg.Group,
 			}
 
-			if err := s.setInstance(regDescriptor, key, value); err != nil {
-				return nil, err
+			// Keep going after a failure: the remaining outputs must be
+			// handed to setInstance too, which disposes late arrivals.
+			if err := s.setInstance(regDescriptor, key, value); err != nil && setErr == nil {
+				setErr = err
 			}
+		}
+
+		if setErr != nil {
+			return nil, setErr
 		}
 
 		if primaryService == nil {
@@ -622,9 +631,15 @@ func (s *scope) createInstance(descriptor *Descriptor) (any, error) {
 				Group: serviceDescriptor.Group,
 			}
 
-			if err := s.setInstance(serviceDescriptor, key, value); err != nil {
-				return nil, err
+			// Keep going after a failure: the remaining outputs must be
+			// handed to setInstance too, which disposes late arrivals.
+			if err := s.setInstance(serviceDescriptor, key, value); err != nil && setErr == nil {
+				setErr = err
 			}
+		}
+
+		if setErr != nil {
+			return nil, setErr
 		}
 
 		return results[descriptor.MultiReturnIndex].Interface(), nil
